@@ -1,5 +1,6 @@
 #![allow(dead_code)]
 mod absmap;
+mod attrs;
 mod builders;
 mod convert;
 mod decode;
@@ -24,6 +25,7 @@ fn main() {
         "decode-record" => decode::record_main(rest),
         "dispatch-replay" => dispatch::main(rest),
         "builders-replay" => builders::main(rest),
+        "attrs-replay" => attrs::main(rest),
         "mods-replay" => modsrep::main(rest),
         "convert-replay" => convert::replay_main(rest),
         "convert-record" => convert::record_main(rest),
